@@ -21,8 +21,12 @@ CONSTANTS NOps,      \* operations are numbered 1..NOps; their kinds are given b
 
 \* kinds of operations in the pool (index = operation number, see lib/genhist.py)
 Kinds == <<"run_ok", "parse_err_eof", "parse_err_mid", "lex_err", "check_err", "run_err_in_loops", "run_exit_in_loop",
-           "run_cancelled", "run_use", "run_err_after_return", "run_rename_drop", "parse_rejected_operand", "run_v2", "run_ok">>
-KindOf(o) == Kinds[((o - 1) % Len(Kinds)) + 1]
+           "run_cancelled", "run_use", "run_err_after_return", "run_rename_drop", "parse_rejected_operand", "run_v2",
+           "run_err_in_if", "run_err_in_cond", "run_ok">>
+\* operation NOps + k re-runs the script that operation k loaded earlier in the same history (no load in between)
+KindOf(o) == IF o > NOps THEN "rerun" ELSE Kinds[((o - 1) % Len(Kinds)) + 1]
+RunKinds == {"run_ok", "run_err_in_loops", "run_exit_in_loop", "run_cancelled", "run_use", "run_err_after_return", "run_rename_drop",
+             "run_v2", "run_err_in_if", "run_err_in_cond"}
 
 Objects == {"parser", "task", "point"}
 Fields == [parser |-> {"errs", "parseResult", "injecting", "inject", "lex", "posCache", "yystate"},
@@ -38,6 +42,7 @@ WritesFirst == [parser |-> {"inject", "yystate"}, task |-> {}, point |-> {}]
 Uses(k) == IF k \in {"parse_err_eof", "parse_err_mid", "lex_err", "parse_rejected_operand"} THEN {"parser"}
            ELSE IF k = "check_err" THEN {"parser", "task"}
            ELSE IF k = "run_v2" THEN {"parser"}
+           ELSE IF k = "rerun" THEN {"task", "point"}
            ELSE {"parser", "task", "point"}
 Reads(o) == Fields[o]
 \* fields an operation leaves dirty when it is done (everything it touched)
@@ -57,7 +62,11 @@ Do(op) ==
      /\ hist' = Append(hist, op)
      /\ stale' = (stale \/ staleRead)
      /\ dirty' = [o \in Objects |-> IF o \in used THEN Leaves(k, o) ELSE dirty[o]]
-Next == \E op \in 1..NOps : Do(op)
+Rerun(k) == /\ KindOf(k) \in RunKinds
+            /\ \E i \in 1..Len(hist) : hist[i] = k
+            /\ Do(NOps + k)
+Next == \/ \E op \in 1..NOps : Do(op)
+        \/ \E k \in 1..NOps : Rerun(k)
 Spec == Init /\ [][Next]_vars
 
 NoStaleRead == ~stale
